@@ -52,6 +52,7 @@ package geometry
 //@   requires meet(a,b,c,d,s,t)
 //@   ensures Lin: s*rxsOf(a,b,c,d) == cmpxsOf(a,b,c,d) && t*rxsOf(a,b,c,d) == cmpxrOf(a,b,c,d)
 //@   ensures Quot: rxsOf(a,b,c,d) != 0 ==> s == cmpxsOf(a,b,c,d)/rxsOf(a,b,c,d) && t == cmpxrOf(a,b,c,d)/rxsOf(a,b,c,d)
+//@   ensures Recip: rxsOf(a,b,c,d) != 0 ==> s == cmpxsOf(a,b,c,d)*(1/rxsOf(a,b,c,d)) && t == cmpxrOf(a,b,c,d)*(1/rxsOf(a,b,c,d))
 
 //@ lemma onSegParam(a Point, b Point, p Point)
 //@   props C19
@@ -70,7 +71,8 @@ package geometry
 //@   ret use cramer(seg.A, seg.B, other.A, other.B, gs, gt)
 //@   ret use onSegParam(seg.A, seg.B, other.A)
 //@   ret use onSegParam(seg.A, seg.B, other.B)
+//@   ret use onSegParam(other.A, other.B, seg.A)
 //@   ret 8 let $s = ite(seg.A == other.A || seg.A == other.B, 0, 1) ; $t = ite(seg.A == other.A, 0, ite(seg.A == other.B, 1, ite(seg.B == other.A, 0, 1)))
-//@   ret 9 let $s = ite(onSeg(seg.A, seg.B, other.A), param(seg.A, seg.B, other.A), param(seg.A, seg.B, other.B)) ; $t = ite(onSeg(seg.A, seg.B, other.A), 0, 1)
+//@   ret 9 let $s = ite(onSeg(seg.A, seg.B, other.A), param(seg.A, seg.B, other.A), ite(onSeg(seg.A, seg.B, other.B), param(seg.A, seg.B, other.B), 0)) ; $t = ite(onSeg(seg.A, seg.B, other.A), 0, ite(onSeg(seg.A, seg.B, other.B), 1, param(other.A, other.B, seg.A)))
 //@   ret 10 let $s = param(seg.A, seg.B, other.A) ; $t = 0
 //@   ret 13 let $s = t ; $t = u
